@@ -1,5 +1,6 @@
 SPECIFICATION Spec
 CONSTANTS
+  TwoPaths = FALSE
   MaxLen = 14
 INVARIANTS
   TypeOK
